@@ -512,6 +512,8 @@ def run(ctx):
     r04h(ctx)
     r04i(ctx)
     r04j(ctx)
+    from .c02 import r02f
+    r02f(ctx)     # the size-derived cap of compound edits is an upper bound only if no node has size 0
     from .c05 import r05c
     from .c17 import r17b
     r05c(ctx)     # a candidate / sub-edit taken from a one-shot iterator and then dropped makes the interval unsound
